@@ -1,6 +1,35 @@
 /-
   Props/C04DecodedObjectsIeee2.lean — Props/C04DecodedObjects.lean on the driver's IEEE instances, second part: sliders,
-  spinners and hold notes (`F = Float`, `P = Float32`; representable = not NaN).
+  spinners and hold notes (`F = Float`, `P = Float32`; representable = not NaN, `IeeeRep64` / `IeeeRep32`). After this file NO
+  LAW HYPOTHESIS is left in the decoded-hit-object theorems of C04 on the IEEE instances; what remains are named residuals
+  on the objects, two of which are NEW FINDINGS about `f64` arithmetic (both reproduced on the Rust crate).
+
+  (a) sliders. `ctrlLaws_float : CtrlLaws Float Float32 IeeeRep32` — the GLOBAL form is a theorem (no `CtrlLawsOn` needed):
+      `RepCoord` confines the quantified values to integers within ±131072, so `b − a`, `a + (b − a)` are integers below 2^23
+      and exact (`FTR.sub_int_exact_float32`, `FIE.add_int_exact_float32` of Lemmas/FloatIntExact32.lean); `truncF` is
+      `FTR.trunc_coord64`. Hence `decoded_sliders_representable_ieee_partial` (partial only because `PathShapeOk` is assumed,
+      as in the generic theorem).
+  (b) spinner / hold end times. The encoder writes `start + duration`, the decoder re-derives `max((start + duration) − start, 0)`
+      resp. `max(start, start + duration) − start`.
+      * `duration_drifts_float` — FINDING (C02): start `0.09`, end `0.34` store `0.25`; written end `0.33999999999999997`; read
+        back `0.24999999999999997`. So `DurLaws.spinnerBack / holdBack` fail NUMERICALLY, not only by the sign of a zero:
+        `DurLawsZ` (the `==` form) is false too (`durLawsZ_float_false`). Cause: `0.34 − 0.09` is a rounding tie (up), `0.09 + 0.25`
+        another (down). Rust: `decode ∘ encode ∘ decode ≠ decode` on `256,192,0.09,12,0,0.34`.
+      * `end_time_over_limit_float` — FINDING (C04): start `−1.0000007152557373`, end `2147483647` store `2147483648.000001`;
+        written end `2147483647.0000002 > i32::MAX`: the encoder's line is REJECTED, the object is lost on re-decoding
+        (`ieeeOverLines_rejected`, kernel; Rust: 1 object → 0 objects). So `DurLaws.spinnerStop / holdStop` fail as well.
+      * integer times (`IntTime`, `IntSpan`): all four clauses hold bit for bit — `durLawsOn_float : DurLawsOn Float IeeeRep64
+        IntTime`, `intSpan_laws`; `decoded_spinners_representable_ieee_int`, `decoded_holds_representable_ieee_int`,
+        `decoded_objects_representable_ieee_int_partial`, `hitobjects_block_accepted_decoded_ieee_int`,
+        `decoded_repMap_ieee_int_partial`, `encoded_file_accepted_decoded_ieee_int_partial`.
+      * ANY times, acceptance only (Lemmas/HitObjectBlockAcc.lean: `RepSpinnerA`, `RepHoldA`, `AccObject` — the `Rep`
+        predicates without the duration-inverse clause, which acceptance does not use): `end_time_lower_float` (the written end
+        time is a number and `≥ −limit`), so the one numeric residual is `EndOk`: the written end time does not exceed the limit.
+        `decoded_spinners_acc_ieee`, `decoded_holds_acc_ieee`, `decoded_objects_acc_ieee_partial`,
+        **`hitobjects_block_accepted_decoded_ieee`**.
+  Non-vacuity / sharpness on closed files decoded, finalised, encoded and re-parsed IN THE KERNEL with the real instances:
+  `ieeeIntLines_accepted`, `ieeeAccLines_accepted` (accepted but not `RepObject`), `ieeeOverLines_rejected`,
+  `decoded_objects_representable_statement_false_ieee` (a reason that is none of F17 / F20 / F21).
 -/
 import RosuModel.Props.C04DecodedObjectsIeee
 import RosuModel.Lemmas.FloatIntExact32
@@ -459,6 +488,57 @@ theorem hitobjects_block_accepted_decoded_ieee (bs : List UInt8) (st : BeatmapSt
           os.map timeKind = m.hitObjects.map timeKind :=
   hitobjects_block_accepted_acc C02.codecLaws_float_ieee C02.codecLaws_float32_ieee FCO.coordLaws_float m
     (fun h hh => decoded_objects_acc_ieee_partial bs st m h1 h2 m.general.mode h hh (hres h hh))
+
+end
+
+/-! ### the whole map and the whole file (integer times) -/
+
+section
+variable [Trig Float] [Trig Float32]
+
+/-- **decoded_repMap_ieee_int_partial** — `RepMap` of a decoded `Beatmap<f64/f32>` with NO law hypothesis: the record
+sections from the `Decoded` invariant (F16 `NoDoubleSlash` excluded), the objects from `ObjResidualInt`, and — still a
+hypothesis, as in `decoded_repMap_partial` — the timing block's `RepTimingMap`. -/
+theorem decoded_repMap_ieee_int_partial (bs : List UInt8) (st : BeatmapState Float Float32) (m : Beatmap Float Float32)
+    (h1 : decodeBytes beatmapDecoder bs = .ok st) (h2 : st.finish = .ok m) (hds : DecodedInv.NoDoubleSlash m)
+    (htim : RtTiming.RepTimingMap IeeeRep64 m) (hres : ∀ h ∈ m.hitObjects, ObjResidualInt h) :
+    RepMap IeeeRep64 IeeeRep32 m :=
+  ⟨decoded_records_representable_of_limitRep constFacts_float limitRep_float limitRep_float32 bs st m h1 h2 hds, htim,
+    fun h hh => decoded_objects_representable_ieee_int_partial bs st m h1 h2 m.general.mode h hh (hres h hh)⟩
+
+open C11 RtTiming FileRt in
+/-- **encoded_file_accepted_decoded_ieee_int_partial** — the file-level C04 statement (`encoded_file_accepted`) for decoded
+`Beatmap<f64/f32>`s, no law hypothesis: decode any bytes to `m`, encode it to `t`; under the object residuals
+(`ObjResidualInt`), F16 and `RepTimingMap` (still a hypothesis), `t` is the version line plus the eight blocks, every decoder
+reading it back makes exactly the calls `recordCalls m T H`, every call is accepted by the `Beatmap` decoder, and the
+counts come back. -/
+theorem encoded_file_accepted_decoded_ieee_int_partial (bs : List UInt8) (st : BeatmapState Float Float32)
+    (m : Beatmap Float Float32) (h1 : decodeBytes beatmapDecoder bs = .ok st) (h2 : st.finish = .ok m)
+    (hds : DecodedInv.NoDoubleSlash m) (htim : RtTiming.RepTimingMap IeeeRep64 m)
+    (hres : ∀ h ∈ m.hitObjects, ObjResidualInt h) (t : Str) (h : encode m = .ok t) :
+    ∃ (cp : ControlPoints Float) (T H : List Str),
+      collectSamples m = .ok cp ∧ T = (mapEntries m cp).map Entry.line ∧
+      encodeTimingPoints m = .ok (unlines (str "[TimingPoints]" :: T)) ∧
+      encodeHitObjects m = .ok (unlines (str "[HitObjects]" :: H)) ∧
+      RtFile.ListBlockShape T ∧ RtFile.ListBlockShape H ∧ H.length = m.hitObjects.length ∧
+      t = unlines (RtFile.fileLines m.formatVersion (RtGeneral.generalLines m.general (RtGeneral.sampleSetOf m.controlPoints))
+        (RtEditor.editorLines m.editor) (RtMetadata.metadataLines m.metadata) (RtDifficulty.difficultyLines m.difficulty)
+        (RtEvents.eventLines m.events) T (RtColours.colourLines m.colors) H) ∧
+      (∀ (σ : Type) (Dc : LineDecoder σ),
+        decodeBytes Dc (utf8Encode t) = .ok (runCalls Dc (Dc.create m.formatVersion) (recordCalls m T H))) ∧
+      decodeBytes recorder (utf8Encode t) = .ok { version := m.formatVersion, calls := (recordCalls m T H).reverse } ∧
+      CallsAccepted (BeatmapState.create m.formatVersion : BeatmapState Float Float32) (recordCalls m T H) ∧
+      ∃ st' : BeatmapState Float Float32, decodeBytes beatmapDecoder (utf8Encode t) = .ok st' ∧
+        st'.hitObjects.core.hitObjects.length = m.hitObjects.length ∧
+        st'.hitObjects.events.breaks.length = m.events.breaks.length ∧
+        st'.colors.customComboColors.length = m.colors.customComboColors.length ∧
+        st'.colors.customColors.length = m.colors.customColors.length ∧
+        st'.hitObjects.timingPoints = C12.runStrs { (TimingPointsState.create : TimingPointsState Float Float32) with
+          general := RtGeneral.preservedGeneral m.general (RtGeneral.sampleSetOf m.controlPoints) } (T.map trimEnd) ∧
+        (T.map trimEnd).length = (mapEntries m cp).length :=
+  encoded_file_accepted
+    ⟨C02.codecLaws_float_ieee, C02.codecLaws_float32_ieee, C02.intPrintLaw_float_ieee, FCO.coordLaws_float⟩ m
+    (decoded_repMap_ieee_int_partial bs st m h1 h2 hds htim hres) t h
 
 end
 
